@@ -1,5 +1,10 @@
 #!/bin/bash
-for id in C03 C04 C14 C16 C02 C19 C20 C17 C18; do
-  s=$(date +%s); VERIF_NO_EVIDENCE=1 ./check $id thorough > /tmp/thor-$id.log 2>&1; code=$?; e=$(date +%s)
-  echo "$id exit=$code $((e-s))s $(grep -c VIOLATION /tmp/thor-$id.log)"
+# tools/thorough_timing.sh [ids...]   run the thorough check of the given properties (default: all), report exit
+# code, wall time, number of VIOLATION / KNOWN-FINDING lines and what the evidence says about exhaustiveness
+cd "$(dirname "$0")/.."
+ids="$*"; [ -z "$ids" ] && ids="C01 C02 C03 C04 C05 C06 C07 C08 C09 C10 C11 C12 C13 C14 C15 C16 C17 C18 C19 C20"
+for id in $ids; do
+  s=$(date +%s); ./check $id thorough > /var/tmp/thor-$id.log 2>&1; code=$?; e=$(date +%s)
+  ex=$(python3 -c "import json; e=json.load(open('evidence/$id.json')); c=e.get('coverage',{}); print('tier=%s exhaustive=%s evaluations=%s'%(e.get('tier'), c.get('exhaustive'), c.get('evaluations')))" 2>/dev/null)
+  echo "$id exit=$code $((e-s))s viol=$(grep -c '^VIOLATION' /var/tmp/thor-$id.log) known=$(grep -c '^KNOWN-FINDING' /var/tmp/thor-$id.log) $ex"
 done
